@@ -7,11 +7,13 @@ package verifharness
 import (
 	"bufio"
 	"bytes"
+	"crypto/sha256"
 	"errors"
 	"fmt"
 	"io"
 	"math/rand/v2"
 	"net"
+	"net/http"
 	"os"
 	"path/filepath"
 	"strings"
@@ -338,6 +340,152 @@ func TestC14(t *testing.T) {
 		}
 		synctest.Test(t, func(t *testing.T) { c14RunE2E(t, run, sc) })
 	}
+	if desc := map[string]any{"part": "real-binary-dropped-connection"}; run.Mine(1<<20, desc) {
+		c14RealDrop(t, run, desc)
+	}
+}
+
+// c14RealDrop: the built binary (compiled with the repository's own Go toolchain - the standard
+// library's ReverseProxy and Transport treat a request body differently from one Go release to the
+// next, and the virtual-time worlds are compiled with a newer one), request buffering with a tiny
+// buffer-memory, a target that reads a request on a kept-alive connection and then drops the
+// connection without answering. If the proxy delivers the request again, every delivery carries the
+// client's exact body; otherwise the client is told (502).
+func c14RealDrop(t *testing.T, run *Run, desc any) {
+	run.Eval()
+	bin := os.Getenv("VERIF_BIN_KAMAL_PROXY")
+	if bin == "" {
+		run.Inconclusive("real binary not built (VERIF_BIN_KAMAL_PROXY unset)")
+		return
+	}
+	ln, err := net.Listen("tcp", "127.0.0.1:0")
+	if err != nil {
+		run.Inconclusive("listen: %v", err)
+		return
+	}
+	defer ln.Close()
+	type seen struct {
+		id   string
+		body int
+		sum  string
+		err  string
+	}
+	var mu sync.Mutex
+	var deliveries []seen
+	dropped := map[string]bool{}
+	go func() {
+		for {
+			c, err := ln.Accept()
+			if err != nil {
+				return
+			}
+			go func() {
+				defer c.Close()
+				br := bufio.NewReader(c)
+				served := 0
+				for {
+					req, err := http.ReadRequest(br)
+					if err != nil {
+						return
+					}
+					b, rerr := io.ReadAll(req.Body)
+					if req.URL.Path == "/up" {
+						fmt.Fprintf(c, "HTTP/1.1 200 OK\r\nContent-Length: 0\r\n\r\n")
+						continue
+					}
+					id := req.Header.Get("X-Id")
+					mu.Lock()
+					e := seen{id: id, body: len(b), sum: fmt.Sprintf("%x", sha256.Sum256(b))}
+					if rerr != nil {
+						e.err = rerr.Error()
+					}
+					deliveries = append(deliveries, e)
+					drop := served > 0 && req.Header.Get("X-Drop") == "1" && !dropped[id]
+					if drop {
+						dropped[id] = true
+					}
+					mu.Unlock()
+					if drop {
+						return // read it on a reused connection, then die without answering
+					}
+					served++
+					fmt.Fprintf(c, "HTTP/1.1 200 OK\r\nContent-Length: 2\r\n\r\nok")
+				}
+			}()
+		}
+	}()
+	u := NewUniverse(t, bin)
+	defer u.Cleanup()
+	if err := u.Start(nil); err != nil {
+		run.Inconclusive("proxy: %v", err)
+		return
+	}
+	if out, code := u.CLI("deploy", "buf", "--target", ln.Addr().String(), "--host", "buf.example", "--buffer-requests", "--buffer-memory", "64"); code != 0 {
+		run.Inconclusive("deploy failed: %s", out)
+		return
+	}
+	RestoreHTTPDefaults() // a virtual-time world may have run in this process before
+	tr := &http.Transport{}
+	defer tr.CloseIdleConnections()
+	hc := &http.Client{Timeout: 20 * time.Second, Transport: tr}
+	send := func(id string, n int, chunked, drop bool) (int, error) {
+		body := c13Bytes("c14real", len(id)+n, n)
+		var rd io.Reader = bytes.NewReader(body)
+		if chunked {
+			rd = io.MultiReader(bytes.NewReader(body[:n/2]), bytes.NewReader(body[n/2:])) // unknown length: chunked
+		}
+		req, _ := http.NewRequest("POST", fmt.Sprintf("http://127.0.0.1:%d/x", u.HTTP), rd)
+		req.Host = "buf.example"
+		req.Header.Set("X-Id", id)
+		req.Header.Set("Idempotency-Key", id)
+		if drop {
+			req.Header.Set("X-Drop", "1")
+		}
+		resp, err := hc.Do(req)
+		if err != nil {
+			return 0, err
+		}
+		io.Copy(io.Discard, resp.Body)
+		resp.Body.Close()
+		return resp.StatusCode, nil
+	}
+	want := map[string]string{}
+	cases := 0
+	for _, n := range []int{10, 64, 65, 200, 5000} {
+		for _, chunked := range []bool{false, true} {
+			warm := fmt.Sprintf("warm-%d-%v", n, chunked)
+			if st, err := send(warm, 5, false, false); err != nil || st != 200 {
+				run.Inconclusive("warm-up request failed: %v %d", err, st)
+				return
+			}
+			id := fmt.Sprintf("d-%d-%v", n, chunked)
+			b := c13Bytes("c14real", len(id)+n, n)
+			want[id] = fmt.Sprintf("%x", sha256.Sum256(b))
+			st, err := send(id, n, chunked, true)
+			cases++
+			if err == nil && st != 200 && st != 502 {
+				run.Violate("real:dropped-connection-status", fmt.Sprintf("body %d bytes (chunked=%v), target dropped the reused connection: client got %d", n, chunked, st), desc, nil)
+				return
+			}
+		}
+	}
+	mu.Lock()
+	defer mu.Unlock()
+	redelivered := 0
+	for _, d := range deliveries {
+		w, ok := want[d.id]
+		if !ok {
+			continue
+		}
+		redelivered++
+		if d.sum != w {
+			run.Violate("real:body-changed:redelivery", fmt.Sprintf("request %s: a delivery to the target carried %d body bytes (read error %q) that are not the client's body (buffer-memory 64)", d.id, d.body, d.err), desc, nil)
+			return
+		}
+	}
+	run.Count("real_drop_cases", cases)
+	run.Count("real_deliveries_compared", redelivered)
+	run.Class("real|dropped-reused-connection")
 }
 
 func c14RunE2E(t *testing.T, run *Run, sc c14E2E) {
